@@ -15,6 +15,7 @@
 #include <vector>
 
 #include <foonathan/memory/container.hpp>
+#include <foonathan/memory/fallback_allocator.hpp>
 #include <foonathan/memory/smart_ptr.hpp>
 #include <foonathan/memory/std_allocator.hpp>
 
@@ -387,6 +388,106 @@ namespace
         }
     };
 
+    // a composition as the containers' allocator: fallback_allocator over references to two composable allocators that share one
+    // probe; the first has a small byte budget, so a container's nodes and arrays are spread over both and every release has to
+    // find its way back, with the shape of the allocation, through the composable interface of the references
+    template <int Tag>
+    struct comp_leaf
+    {
+        using is_stateful = std::true_type;
+        probe_handle                      s;
+        std::size_t                       capacity;
+        std::shared_ptr<std::set<void*>>  mine = std::make_shared<std::set<void*>>();
+        std::shared_ptr<std::size_t>      used = std::make_shared<std::size_t>(0);
+        comp_leaf(probe_handle h, std::size_t cap) : s(std::move(h)), capacity(cap) {}
+        void* take(bool arr, std::size_t c, std::size_t size, std::size_t al)
+        {
+            void* p = s->acquire(arr, c, size, al);
+            mine->insert(p);
+            *used += c * size;
+            return p;
+        }
+        void give(bool arr, void* p, std::size_t c, std::size_t size, std::size_t al) noexcept
+        {
+            if (!mine->erase(p))
+                viol_nothrow("C10", "C10/" + cx().kind + "/released-to-wrong-allocator",
+                             "memory was released to a part of the composition that did not allocate it");
+            else
+                *used -= std::min(*used, c * size);
+            s->release(arr, p, c, size, al);
+        }
+        void* allocate_node(std::size_t size, std::size_t al)
+        {
+            if (*used + size > capacity)
+                throw out_of_fixed_memory(allocator_info{"vf::comp_leaf", this}, size);
+            return take(false, 1, size, al);
+        }
+        void* allocate_array(std::size_t c, std::size_t size, std::size_t al)
+        {
+            if (*used + c * size > capacity)
+                throw out_of_fixed_memory(allocator_info{"vf::comp_leaf", this}, c * size);
+            return take(true, c, size, al);
+        }
+        void* try_allocate_node(std::size_t size, std::size_t al) noexcept
+        {
+            return *used + size > capacity ? nullptr : take(false, 1, size, al);
+        }
+        void* try_allocate_array(std::size_t c, std::size_t size, std::size_t al) noexcept
+        {
+            return *used + c * size > capacity ? nullptr : take(true, c, size, al);
+        }
+        void deallocate_node(void* p, std::size_t size, std::size_t al) noexcept
+        {
+            give(false, p, 1, size, al);
+        }
+        void deallocate_array(void* p, std::size_t c, std::size_t size, std::size_t al) noexcept
+        {
+            give(true, p, c, size, al);
+        }
+        bool try_deallocate_node(void* p, std::size_t size, std::size_t al) noexcept
+        {
+            if (!mine->count(p))
+                return false;
+            give(false, p, 1, size, al);
+            return true;
+        }
+        bool try_deallocate_array(void* p, std::size_t c, std::size_t size, std::size_t al) noexcept
+        {
+            if (!mine->count(p))
+                return false;
+            give(true, p, c, size, al);
+            return true;
+        }
+        std::size_t max_node_size() const noexcept
+        {
+            return std::size_t(1) << 30;
+        }
+        std::size_t max_array_size() const noexcept
+        {
+            return std::size_t(1) << 30;
+        }
+        std::size_t max_alignment() const noexcept
+        {
+            return 64;
+        }
+    };
+    using comp_t = fallback_allocator<allocator_reference<comp_leaf<0>>, allocator_reference<comp_leaf<1>>>;
+    template <class T>
+    using comp_alloc = std_allocator<T, comp_t>;
+    struct composed_leaves
+    {
+        static constexpr const char* suffix = "-composed";
+        comp_leaf<0> a1, a2;
+        comp_leaf<1> b1, b2;
+        comp_t       L1, L2;
+        composed_leaves(probe_handle h1, probe_handle h2)
+        : a1(h1, 764), a2(h2, 300), b1(h1, std::size_t(1) << 28), b2(h2, std::size_t(1) << 28),
+          L1(allocator_reference<comp_leaf<0>>(a1), allocator_reference<comp_leaf<1>>(b1)),
+          L2(allocator_reference<comp_leaf<0>>(a2), allocator_reference<comp_leaf<1>>(b2))
+        {
+        }
+    };
+
     template <class K, bool Erased, class Leaves = stateful_leaves>
     void program_kind(const args& a)
     {
@@ -732,4 +833,10 @@ void run_programs_erased(const vf::args& a)
     program_kind<KS::set_k, true, stateless_leaves>(a);
     program_kind<KS::vector_k, true, stateless_leaves>(a);
     program_kind<KS::umap_k, true, stateless_leaves>(a);
+    using KC = kinds<comp_alloc>;
+    program_kind<KC::list_k, false, composed_leaves>(a);
+    program_kind<KC::vector_k, false, composed_leaves>(a);
+    program_kind<KC::deque_k, false, composed_leaves>(a);
+    program_kind<KC::string_k, false, composed_leaves>(a);
+    program_kind<KC::umap_k, false, composed_leaves>(a);
 }
